@@ -57,6 +57,10 @@ func genExArg(r *rand.Rand) V {
 		if r.Intn(4) == 0 {
 			k.Cfg.Opt |= fNNest // the Stack's own option says nothing about the Condition that holds it
 		}
+		if r.Intn(4) == 0 {
+			// the Stack encapsulates its own rendering; the Condition's pairs go around that, whatever it looks like
+			k.Cfg.Enc = [][][]string{{{"<", ">"}}, {{"\""}}, {{"(", ")"}, {"'"}}}[r.Intn(3)]
+		}
 		return k
 	case 3:
 		return V{T: 'g', ID: 2, S: "strg"}
